@@ -9,6 +9,7 @@
 //   LOAD <type> <prob> <seed> <steps> <hex|->    -> OK | ret | dump0 | savehex0 | valid0 | dump1 | savehex1 | valid1
 //   (target of LOAD = the object GEN builds from the same type/prob/seed/steps)
 // types: H F MEP GA DE TEAM POPMEP POPGA POPDE POPTEAM SUMMEP SUMGA SUMDE DIST MAT
+//        DISTX = DIST fed with finite values whose squares overflow (non-finite second moment)
 //
 // dump grammar (tokens; X = 16 hex digits, n = decimal):
 //   H      : X X
@@ -478,9 +479,16 @@ hash_t gen(tag<hash_t>, problem &, unsigned steps)
   }
 }
 
+bool dist_unbounded = false;  // type DISTX: values whose squares overflow
+
 distribution<double> gen(tag<distribution<double>>, problem &, unsigned steps)
 {
   distribution<double> d;
+  if (dist_unbounded)
+  {
+    d.add(1e200);
+    d.add(-1e200);
+  }
   for (unsigned s(0); s < steps; ++s)
     switch (random::between(0, 4))
     {
@@ -587,7 +595,11 @@ int main()
       else if (t == "SUMMEP") run<summary<i_mep>>(w, ps.mep(k));
       else if (t == "SUMGA") run<summary<i_ga>>(w, ps.ga);
       else if (t == "SUMDE") run<summary<i_de>>(w, ps.de);
-      else if (t == "DIST") run<distribution<double>>(w, ps.mep1);
+      else if (t == "DIST" || t == "DISTX")
+      {
+        dist_unbounded = (t == "DISTX");
+        run<distribution<double>>(w, ps.mep1);
+      }
       else if (t == "MAT") run<matrix<int>>(w, ps.mep1);
       else std::cout << "BADTYPE\n";
     }
